@@ -11,7 +11,7 @@
 (* sets of completed awaitables, 720 maximal behaviours); the generator configurations carry   *)
 (* the order in `hist` and print, when waiter returns, the schedule and the value returned.    *)
 EXTENDS LiftShapes, LiftWaiter, Json, SequencesExt, FiniteSetsExt
-CONSTANTS Menu          \* "quick" / "thorough" / "deps" / "legacy"
+CONSTANTS Menu          \* "quick" / "thorough" / "deps"
 
 \* results: lists, None, strings and equal values for different awaitables are among them
 ValOf(i) == CASE i % 5 = 0 -> VLst(<<VInt(i)>>)
@@ -81,7 +81,8 @@ CorosX ==
     VLst(<<Aw(1, "objobj"), Aw(2, "obj"), Aw(3, "obj")>>),
     M(<< <<"a", Aw(1, "obj")>>, <<"b", VLst(<<Aw(2, "objcoro"), Aw(4, "objfut")>>)>>, <<"c", M(<< <<"x", Aw(3, "coro")>>, <<"y", Aw(5, "objobj")>> >>)>> >>),
     VTup(<<M(<< <<"a", Aw(1, "obj")>>, <<"b", Look(9, "gen")>> >>), M(<< <<"a", Aw(2, "obj")>>, <<"b", Aw(3, "objobj")>> >>)>>) }
-\* the legacy kind (generator-based coroutines), kept apart: see LegacyKinds in Lift.tla
+\* the legacy kind (generator-based coroutines): see LegacyKinds in Lift.tla; the driver keeps the
+\* schedules of these structures apart (family "gencoro")
 LegacyTrees ==
   { Aw(1, "gencoro"), VLst(<<Aw(1, "gencoro"), Aw(2, "fut")>>),
     M(<< <<"a", Aw(1, "gencoro")>>, <<"b", VTup(<<Aw(2, "gencoro"), Aw(3, "coro")>>)>> >>) }
@@ -97,11 +98,10 @@ KindsThorough == KindsAlone \cup KindsMixed \cup KindsMore \cup {Ord(t) : t \in 
 Generated(d, w, menu) == {Build(s, menu, 1, 0) : s \in Shapes(d, w)}
 SpineTrees(d) == {Build(s, "aw", 1, 0) : s \in Spine(d) \cup Chain(d)}
 
-TreeMenu == IF Menu = "legacy" THEN LegacyTrees
-            ELSE IF Menu = "quick" THEN KindsQuick \cup {Ord(t) : t \in Coros} \cup Explicit \cup Generated(2, 2, "aw") \cup Generated(1, 3, "awmix")
+TreeMenu == IF Menu = "quick" THEN KindsQuick \cup LegacyTrees \cup {Ord(t) : t \in Coros} \cup Explicit \cup Generated(2, 2, "aw") \cup Generated(1, 3, "awmix")
                                    \cup WithDeps(Coros \cup Generated(2, 2, "co")) \cup {DepNext(t) : t \in Explicit}
             ELSE IF Menu = "deps" THEN WithDeps(Coros)
-            ELSE KindsThorough \cup WithDeps(Explicit \cup More \cup Coros \cup Generated(2, 2, "co") \cup Generated(2, 2, "aw") \cup Generated(1, 3, "co")) \cup {Ord(t) : t \in Coros \cup Explicit \cup More} \cup Explicit \cup More \cup Generated(2, 2, "aw") \cup Generated(2, 2, "awmix") \cup Generated(1, 3, "aw") \cup SpineTrees(3)
+            ELSE KindsThorough \cup LegacyTrees \cup WithDeps(LegacyTrees) \cup WithDeps(Explicit \cup More \cup Coros \cup Generated(2, 2, "co") \cup Generated(2, 2, "aw") \cup Generated(1, 3, "co")) \cup {Ord(t) : t \in Coros \cup Explicit \cup More} \cup Explicit \cup More \cup Generated(2, 2, "aw") \cup Generated(2, 2, "awmix") \cup Generated(1, 3, "aw") \cup SpineTrees(3)
                  \cup {Build(s, "awmix", 1, 0) : s \in Spine(4) \cup Uniform(3)}                \* depth 4 / 8 leaves, 2-4 awaitables
 
 \* generator: the step by which waiter returns prints the schedule and the value returned
